@@ -405,7 +405,6 @@ func parseModel(resp string, syms map[string]*Term) map[string]interface{} {
 	return m
 }
 
-
 // CheckSet decides the conjunction of conjs (no incremental stack: used with
 // constraint-independence slicing, where consecutive queries share little).
 func (s *Solver) CheckSet(conjs []*Term, syms map[string]*Term) (SatResult, map[string]interface{}) {
